@@ -22,10 +22,11 @@ CLAIMS = {
  "C16": ("§0a, §5 C16", "Size caches of the whole tree set to arbitrary int32 values (= every history of earlier Size/Marshal calls and mutations), then the exact sequence proto.Marshal performs (sizePointer, marshalAppendPointer with UseCachedSize) yields the encoding of the current content; VNests/VReqOuter/VScalars2 from inputs <=4 (5) bytes."),
  "C17": ("§0a, §5 C17", "Opaque VNode with a lazy self-recursive child: lazy vs NoLazyDecoding on every input <=3 (5) bytes and on structured inputs (child bodies, repeated/out-of-order/non-contiguous children): same verdict, initialized flag, presence bits, Size==len, pass-through bytes decode to the same message, same deterministic bytes, same CheckInitialized, forcing every lazy field never panics; protolazy.lookupField vs reference on sorted indexes <=4 entries; buildIndex/SizeField/AppendField segments on scan-accepted inputs <=5 (6)."),
  "C18": ("§5 C18", "Consistency half only: one inductive step of every write-once publication primitive (AtomicSetPointerIfNil, AtomicInitializePointer, AtomicLoadPointer, atomicV1MessageInfo.SetIfNil, atomicNilMessage.Init) from an arbitrary cell state: a published value is never overwritten, every caller obtains the final value. Data-race freedom (Go memory model) is outside this technique."),
- "C22": ("§5 C22", "Integers only: JSON number literals of case-split shape (sign, <=3 (5) integer digits, <=2 (3) fraction digits, exponent -21..21 (-25..25), all digits symbolic) and 18..20-digit plain integers through parseNumberParts -> normalizeToIntString -> strconv vs exact reference arithmetic for int32/int64/uint32/uint64 (cvc5 integer back end): accepted iff integral and in range, value exact. Floats, enums, base64 outside."),
+ "C22": ("§5 C22", "Integers only: JSON number literals of case-split shape (sign, <=2 (5) integer digits, <=2 (3) fraction digits, exponent in {-3..3,17..22} (-25..25), all digits symbolic) and 19/20-digit plain integers around 2^63 and 2^64 (concrete prefix, three symbolic digits) through parseNumberParts -> normalizeToIntString -> strconv vs exact reference arithmetic for int32/int64/uint32/uint64 (cvc5 integer back end): accepted iff integral and in range, value exact. Floats, enums, base64 outside."),
  "C26": ("§5 C26", "Kernel: internal/set.Ints one inductive step (Set/Clear/Has/Len from arbitrary state, 63/64 boundary) for duplicate detection; JSON token decoder total on every document <=4 (5) bytes; text parseString total. RecursionLimit and seenNums call sites in protojson/prototext.unmarshalMessage outside."),
  "C27": ("§5 C27", "protodelim framing logic whole: UnmarshalFrom on every stream <=5 (6) bytes with 3 reader behaviours (bulk, byte-at-a-time, data+EOF together), MaxSize symbolic 1..4 / default / unlimited: io.EOF exactly at a clean boundary, io.ErrUnexpectedEOF inside size or body, SizeTooLargeError (all uint64 sizes x all MaxSize), body handed to Unmarshal exactly, exact consumption; MarshalTo writes varint(len)++msg and is read back message after message. Messages themselves stubbed (recording model message); bufio fast path outside."),
  "C29": ("§0a, §5 C29", "Open-struct vs opaque flavour of the same schema on the fast path (VReq/VReqO, VScalars2/VScalarsO): same verdict, initialized flag, identical deterministic bytes, Size, CheckInitialized and validator results on every input <=3..4 (5..6) bytes and on one-field structured inputs. Hybrid API, builders/setters, dynamicpb, JSON/text outside."),
+ "C38": ("§5 C38", "Kernel only: filedesc.unmarshalFeatureSet/unmarshalGoFeature resolve every feature flag to the last explicit setting in the options bytes (<=3 settings of features 1..6 with enum values 0..3, optional Go-features block; enum numbers written out from descriptor.proto) else to the arbitrary parent's value; getFeaturesFor picks the defaults of the greatest known edition not above the requested one on arbitrary sorted tables of 1..3 editions. protodesc's resolution (proto.GetExtension) and 'proto2/proto3 file == editions translation' at runtime are outside."),
  "C39": ("§5 C39", "defval Marshal/Unmarshal round trip: bytes defaults of every content <=3 (4) bytes in both formats (real text.UnmarshalString underneath, exact Sprintf octal model), bool and string defaults. Integer kinds (strconv.FormatInt/ParseInt digit loops: solver unknown within budget, tried and dropped), floats and enums by name are outside."),
  "C21": ("§5 C21", "internal/encoding/json token level: parseNumber vs the RFC 8259 number grammar on every byte string <=6 (8 thorough) in both directions (accepted => grammatical and delimiter-terminated; grammatical+delimiter => accepted whole), parseString vs an RFC 8259 string reference incl. decoded value on quote+<=5 (7) bytes and on \\uXXXX escapes / surrogate pairs with symbolic hex digits, null/true/false matching, and Decoder.Read to EOF on every document <=4 (5) bytes: accepted => the reference JSON grammar accepts. Message-level protojson output is outside."),
  "C23": ("§5 C23", "protojson.parseDuration vs a three-valued reference recogniser of the documented Duration grammar with exact (seconds,nanos) incl. sign rule on every string <=6 (8 thorough) bytes, plus structured long literals (sign, <=13 integer digits, <=10 fractional digits, all digits symbolic; cvc5 integer back end). FieldMask JSON reversibility kernel (JSONCamelCase/JSONSnakeCase) via C42's harness. Timestamp text (time.Parse), Struct/Value/Any and the range check in unmarshalDuration are outside."),
@@ -40,6 +41,12 @@ CLAIMS = {
 }
 
 NA = {
+ "C08": "comparing the generated fast path with the reflection path needs the reflection codec (proto/decode.go, encode.go slow path) driven over protoreflect.Message implementations of real messages, i.e. reflect-built fieldInfo closures or dynamicpb's descriptor-keyed maps, which the SSA encoder cannot execute; the two leaf-codec kernels alone do not decide the property and were not built",
+ "C15": "Reset and pre-decode clearing of real messages go through generated Reset methods / reflection Clear over fieldInfo closures; only proto.UnmarshalOptions' Reset-before-decode ordering was observable (it is asserted inside C27's model-message harness) and that alone is not a claim of this property",
+ "C20": "message-level protojson round trip is descriptor- and reflection-driven and floats need strconv's Ryu/Eisel-Lemire (not encodable); the JSON string encode/decode kernel is checked under C21 and integers under C22",
+ "C24": "message-level prototext round trip is descriptor/reflection-driven and the float clauses (every float32 bit pattern) need strconv; the string-literal kernel is checked under C25",
+ "C45": "structpb/anypb conversions are reflection, map[string]any iteration, registry lookups and encoding/json; the scalar NewValue kernel planned in DESIGN §5 was not built",
+ "C46": "legacy wrapping (legacyLoadMessageDesc, aberrant struct-tag derivation) is reflect.Type-driven end to end; the tag codec kernel planned in DESIGN §5 was not built",
  "C12": "oneof exclusivity lives in reflect-built closures (fieldInfoForOneof, initOneofFieldCoders), dynamicpb maps keyed by descriptors and descriptor-driven JSON/text decoding; no encodable kernel carries 'at most one member'",
  "C19": "needs the Go memory model and goroutine scheduling; guarded bodies are reflection/map code; a sequential SMT encoding of go/ssa cannot express data races",
  "C28": "fieldInfo has/get/set/mutable are closures built from reflect.Type; convert_list/convert_map are reflect; dynamicpb is maps of protoreflect.Value keyed by descriptors",
